@@ -47,7 +47,7 @@ impl TimeFormat {
                 format!("{secs}.{nanos:09}0")
             }
             Self::Ctime => {
-                const CTIME_FORMAT: &str = "%a %b %d %H:%M:%S.%f0 %Y";
+                const CTIME_FORMAT: &str = "%a %b %e %H:%M:%S.%f0 %Y";
 
                 match super::time::to_datetime(time) {
                     Some(utc) => utc.with_timezone(&Local).format(CTIME_FORMAT).to_string(),
